@@ -23,7 +23,7 @@ open Pdt Pdt.Reader Pdt.Represent Pdt.Write
 
 theorem writer_constants_pinned :
     Gen.sealant = "-".toList ∧ Gen.naRepDefault = "-".toList ∧ Gen.csvSep = ";".toList ∧
-    Gen.sealantTest = "val == '' and col == 0" := by decide
+    Gen.sealantTest = "col == 0 and val == ''" := by decide
 
 /-! ## 1. well-formed tables (DESIGN.md §3) -/
 
